@@ -184,14 +184,14 @@ example : ∃ f f', Bloom.new 3 5 0 = .ok f ∧ Bloom.addItem f [1, 2, 3] = .ok 
 in-place overwriting of the argument buffers, under every implementation choice, every answer is the one obtained
 with the standard digest functions applied to the contents the buffer has *at that step*: nothing is remembered
 from earlier calls.  `GoodStep`/`GoodState`: buffers are byte strings (`bytes`, `bytearray`) below 2^61 bytes. -/
-theorem C19_digest_history (impl : HashPy.Impl) (st : History.State) (steps : List History.Step)
-    (hs : History.GoodState st) (hg : ∀ s ∈ steps, History.GoodStep s) :
-    History.exec (History.implFns impl) st steps = History.exec History.specFns st steps :=
-  History.exec_agree impl steps st hs hg
+theorem C19_digest_history (impl : HashPy.Impl) (st : HashHistory.State) (steps : List HashHistory.Step)
+    (hs : HashHistory.GoodState st) (hg : ∀ s ∈ steps, HashHistory.GoodStep s) :
+    HashHistory.exec (HashHistory.implFns impl) st steps = HashHistory.exec HashHistory.specFns st steps :=
+  HashHistory.exec_agree impl steps st hs hg
 
 /-- the instance the seeded memo defect violates: hash a bytearray, overwrite it in place, hash it again -/
 example (impl : HashPy.Impl) (a b : Bytes) (ha : a.length < 2 ^ 61) (hb : b.length < 2 ^ 61) :
-    History.exec (History.implFns impl) History.empty [.new 0 .bytearray a, .rmd 0, .set 0 b, .rmd 0] =
+    HashHistory.exec (HashHistory.implFns impl) HashHistory.empty [.new 0 .bytearray a, .rmd 0, .set 0 b, .rmd 0] =
       [.ok .unit, .ok (.bytes (ripemd160 a)), .ok .unit, .ok (.bytes (ripemd160 b))] := by
   rw [C19_digest_history impl _ _ (by intro p hp; cases hp)
     (by intro s hs; simp only [List.mem_cons, List.mem_nil_iff, or_false] at hs
